@@ -11,6 +11,13 @@
     5  [I; b; S; ids]      build (b = 4: solved graph of [S]), then
                            [remove_node id] for each id; state after each call
 
+    6  [I; recipe]         a graph assembled from the public building blocks:
+                           [recipe] is a list of steps applied to
+                           [JobShopGraph(instance, add_operation_nodes=False)];
+                           step [[0; node]] = [add_node] (node encoded as in the
+                           node lists, its id ignored), [[k]] with k >= 1 = the
+                           k-th building block of [recipe_step]
+
     A graph is reported as [[1; nodes; edges sorted by (u, v); nodes_by_type ids;
     nodes_by_machine; nodes_by_job; removed_nodes]] or [[0]] when the builder
     raised. *)
@@ -40,6 +47,43 @@ Definition enc_graph (og : option graph) : val :=
 
 Definition build_any (b : nat) (I : instance) (S : schedule) : option graph :=
   if (b =? 4)%nat then build_solved_disjunctive_graph I S else build_by_code b I.
+
+(** Graphs assembled by hand from the public building blocks (the harness's custom builders and the
+    manual routes of C16): the step numbering is the harness's. *)
+Definition recipe_step (k : nat) (g : graph) : option graph :=
+  match k with
+  | 1 => Some (add_operation_nodes g)
+  | 2 => add_disjunctive_edges g
+  | 3 => add_conjunctive_edges g
+  | 4 => Some (add_source_sink_nodes g)
+  | 5 => add_source_sink_edges g
+  | 6 => Some (add_machine_nodes g)
+  | 7 => add_operation_machine_edges g
+  | 8 => add_machine_machine_edges g
+  | 9 => add_same_job_operations_edges g
+  | 10 => Some (add_job_nodes g)
+  | 11 => add_operation_job_edges g
+  | 12 => add_job_job_edges g
+  | 13 => Some (add_global_node g)
+  | 14 => add_machine_global_edges g
+  | 15 => add_job_global_edges g
+  | _ => None
+  end%nat.
+
+Definition recipe_apply (og : option graph) (st : val) : option graph :=
+  match og with
+  | None => None
+  | Some g => match asN (vnth st 0) with
+              | 0%nat => Some (add_node g (snd (dec_node (vnth st 1))))
+              | k => recipe_step k g
+              end
+  end.
+
+Definition build_recipe (I : instance) (steps : list val) : option graph :=
+  fold_left recipe_apply steps (Some (init_graph I)).
+
+Definition cmd_build_recipe (v : val) : val :=
+  enc_graph (build_recipe (dec_instance (vnth v 0)) (asL (vnth v 1))).
 
 Definition cmd_build (v : val) : val :=
   enc_graph (build_by_code (asN (vnth v 1)) (dec_instance (vnth v 0))).
@@ -96,5 +140,6 @@ Definition run_c16 (c : Z) (v : val) : val :=
   | 3 => cmd_oracle v
   | 4 => cmd_oracle_solved v
   | 5 => cmd_remove v
+  | 6 => cmd_build_recipe v
   | _ => VL []
   end.
